@@ -289,6 +289,29 @@ def big_int_boundaries(ctx, n):
             ctx.obligation_breaks.append({"what": "model-driver-run", "detail": repr(ex)[:300]})
 
 
+def double_faults(ctx):
+    """two things wrong at once: giving both kinds of weights is refused as such (TypeError, as random.choices does) whatever else is wrong with
+    either list — its length, its total; with and without an id"""
+    from pyab_experiment.binning import binning
+    for npop in (1, 2, 3, 8):
+        pop = ["p%d" % i for i in range(npop)]
+        ws = [1 + i for i in range(npop)]
+        cum = list(itertools.accumulate(ws))
+        faults = {"cum-short": dict(weights=ws, cum_weights=cum[:-1]), "cum-long": dict(weights=ws, cum_weights=cum + [cum[-1] + 1]), "weights-short": dict(weights=ws[:-1], cum_weights=cum),
+                  "weights-long": dict(weights=ws + [1], cum_weights=cum), "both-long": dict(weights=ws + [1], cum_weights=cum + [cum[-1] + 1]), "cum-zero": dict(weights=ws, cum_weights=[0] * npop),
+                  "weights-zero": dict(weights=[0] * npop, cum_weights=cum), "cum-inf": dict(weights=ws, cum_weights=cum[:-1] + [float("inf")]), "cum-empty": dict(weights=ws, cum_weights=[]),
+                  "weights-empty": dict(weights=[], cum_weights=cum), "cum-negative": dict(weights=ws, cum_weights=[-1] * npop)}
+        for name, kw in faults.items():
+            for uid in ("unit7", "", None):
+                out = common.outcome_of(lambda: binning.deterministic_choice(uid, pop, **kw))
+                ctx.case(("double-fault", npop, name, uid), True)
+                ctx.count("variant:double-fault")
+                if not common.same_outcome(out, {"e": "TypeError"}):
+                    ctx.violation(f"both weights and cum_weights given ({name}, id {uid!r}): {json.dumps(out)[:80]}, documented error is TypeError",
+                                  {"pop": repr(pop), "kw": repr(kw)[:300], "id": uid, "impl": out})
+                    return
+
+
 def run(ctx):
     n = N[ctx.tier]
     if ctx.obligation_breaks or ctx.tie_breaks:
@@ -305,6 +328,9 @@ def run(ctx):
     choicelib.run_stateful(ctx, 40 if ctx.tier == 'quick' else 600)
     choicelib.run_scaling(ctx, 25 if ctx.tier == 'quick' else 400)
     choicelib.run_rounded_totals(ctx)
+    choicelib.run_numeric_twin_sequences(ctx)
+    choicelib.run_ulp_boundaries(ctx)
+    double_faults(ctx)
 
 
 def search(ctx):
